@@ -414,6 +414,44 @@ func c17R5(c *Ctx) {
 		}, nil)
 		c.check(hit == nil, "addReceivedData/inband-dropped", c.pos(f.Pos()), "in-band bytes are not enqueued once the tunnel is agreed", "in-band bytes can still reach the transfer buffer after the tunnel was agreed", c.pathStr(path)...)
 	}
+	{
+		// the same as a truth table (universal): with the tunnel agreed and the bytes in-band the enqueue is unreachable,
+		// whatever else is tested; with tunnel bytes, or no tunnel agreed, and the transfer running it is reached
+		A := func(p func(ssa.Value) bool, v bool) assumption { return assumption{pred: p, val: v} }
+		agreedP := isFieldLoad("tunnelConnected")
+		tunP := isVar("tunnel")
+		stoppedP := func(v ssa.Value) bool {
+			call, _ := callOf(v)
+			return call != nil && isAtomicOnField(call, "stopped", "Load")
+		}
+		for _, row := range []struct {
+			name string
+			as   []assumption
+			enq  bool
+		}{
+			{"tunnel-agreed,in-band-bytes", []assumption{A(agreedP, true), A(tunP, false)}, false},
+			{"tunnel-agreed,tunnel-bytes,running", []assumption{A(agreedP, true), A(tunP, true), A(stoppedP, false)}, true},
+			{"no-tunnel,running", []assumption{A(agreedP, false), A(stoppedP, false)}, true},
+		} {
+			reach := blocksUnder(f, row.as)
+			got := false
+			for _, a := range adds {
+				if reach[a.Block()] {
+					got = true
+				}
+			}
+			if row.enq {
+				// and on every such path
+				hitE, pathE := reachFromE(f.Blocks[0], 0, isReturn, func(in ssa.Instruction) bool {
+					ci, ok := in.(ssa.CallInstruction)
+					return ok && calleeID(ci.Common()) == "(*trzsz.trzszBuffer).addBuffer"
+				}, contradicts(row.as))
+				c.check(got && hitE == nil, "addReceivedData/enqueue@"+row.name, c.pos(f.Pos()), "in this case the bytes are always queued", "in the case '"+row.name+"' received bytes can be dropped", c.pathStr(pathE)...)
+			} else {
+				c.check(!got, "addReceivedData/enqueue@"+row.name, c.pos(f.Pos()), "in this case the bytes are never queued", "in the case '"+row.name+"' in-band bytes can reach the transfer although the tunnel is in use")
+			}
+		}
+	}
 	if dropBlocks == 0 {
 		c.bad("addReceivedData/inband-dropped", c.pos(f.Pos()), "no branch drops in-band bytes when the tunnel is agreed")
 	}
